@@ -169,7 +169,7 @@ def main_prop(prop, tier, replay=None, selftest=False):
         run(ck, prop, sj, [p], tier)
         return ck.finish(exhaustive=False, rule="replay")
     nsim, limit = (3000, 260) if tier == "quick" else (40000, 3000)
-    sj, progs = progcheck.tlc_program_sample(ck, nsim, limit, ext=(40 if tier == "quick" else 400))
+    sj, progs = progcheck.tlc_program_sample(ck, nsim, limit, ext=(100 if tier == "quick" else 600))
     os.makedirs(os.path.join(vlib.WORK, "c01"), exist_ok=True)
     json.dump(sj, open(os.path.join(vlib.WORK, "c01", "schema.json"), "w"))
     if len(progs) < 40:
